@@ -2,20 +2,34 @@ import FCA.Proofs.FormatsTable
 import FCA.Proofs.FormatsCsvLoad
 import FCA.Proofs.FormatsFimi
 import FCA.Proofs.FormatsWiki
+import FCA.Proofs.FormatsStrictTable
+import FCA.Proofs.FormatsStrictCsv
+import FCA.Proofs.FormatsTableAny
 /-
 Property C12 — text formats round-trip every representable context.
 
 Model: `FCA/Model/Formats.lean` (strings are code-point lists `Str = List Char`).
-Helper lemmas: `FCA/Proofs/Formats{Str,Cxt,Table,Csv,CsvLoad,Fimi}.lean`.
+Helper lemmas: `FCA/Proofs/Formats{Str,Cxt,Table,TableAny,Csv,CsvLoad,Fimi,Wiki,Strict*}.lean`.
 
-For every format the loader of the model (a transcription of the Python splitter code) inverts the
-dumper (the exact text written by Python) on every context whose labels are representable:
+For every format the loader of the model (a transcription of the Python splitter code, for csv of
+CPython's `_csv.c` reader) inverts the dumper (the exact text written by Python) on every context
+whose labels are representable:
 
 * `.cxt`   : `C12_cxt_roundtrip`    (labels: `CxtLabel`)
 * table    : `C12_table_roundtrip`  (labels: `TableLabel`, every indent)
-* csv      : `C12_csv_roundtrip`    (arbitrary labels, both symbol sets, symbols sniffed)
+* csv      : `C12_csv_roundtrip`    (arbitrary labels up to the reader's field size limit, both symbol
+             sets, symbols sniffed)
 * FIMI     : `C12_fimi_rows`, `C12_fimi_text`
 * wiki     : `C12_wiki_readback` (export only; read back by a reference reader `readWiki`)
+
+The emitted text follows the documented layout: strict readers written from the format descriptions
+alone (no code shared with the loaders) recover the triple:
+`C12_strict_table`, `C12_strict_cxt`, `C12_strict_csv`.
+
+Text of an independent writer is loaded as the same context:
+`C12_table_any_writer` (any paddings, marks, indentation, comments, blank lines),
+`C12_csv_writer_family`, `C12_csv_writer_family_load` (any quoting, CR LF or LF);
+a blank line in csv text is refused as by CPython: `C12_csv_blank_line_rejected`.
 -/
 namespace FCA
 
@@ -130,6 +144,40 @@ example : loadCxt (dumpCxt [[' ', 'a']] [['p']] [[true]]) = .ok ([['a']], [['p']
 /-- … and with no property the (empty) rows are lost. -/
 example : loadCxt (dumpCxt [['a']] [] [[]]) = .ok ([['a']], [], []) := by decide
 
+/-- the emitted text follows the Burmeister layout: the strict reader `strictCxt` (lines `B`, empty,
+`n`, `m`, empty, `n` objects, `m` properties, `n` rows of exactly `m` characters `X`/`.`, every line
+ends with a line break, nothing else) recovers the triple. Labels are arbitrary single-line strings
+here (even empty, or with blanks at the ends), and any shape is fine (no object, no property). -/
+theorem C12_strict_cxt {objects properties : List Str} {bools : List (List Bool)}
+    (hlen : bools.length = objects.length) (hrow : ∀ r ∈ bools, r.length = properties.length)
+    (ho : ∀ o ∈ objects, '\n' ∉ o) (hp : ∀ p ∈ properties, '\n' ∉ p) :
+    strictCxt (dumpCxt objects properties bools) = some (objects, properties, bools) :=
+  strictCxt_dumpCxt hlen hrow ho hp
+
+/-- the `Rect`/`CxtLabel` form -/
+theorem C12_strict_cxt_rect {objects properties : List Str} {bools : List (List Bool)}
+    (hr : Rect objects properties bools) (ho : ∀ o ∈ objects, CxtLabel o)
+    (hp : ∀ p ∈ properties, CxtLabel p) :
+    strictCxt (dumpCxt objects properties bools) = some (objects, properties, bools) :=
+  strictCxt_dumpCxt hr.2.2.1 hr.2.2.2 (fun o h => (ho o h).2.2.2) (fun p h => (hp p h).2.2.2)
+
+example : strictCxt (dumpCxt [['1'], [' ', 'X', '.'], []] [['2'], ['.', 'X']]
+      [[true, false], [false, false], [true, true]]) =
+    some ([['1'], [' ', 'X', '.'], []], [['2'], ['.', 'X']],
+      [[true, false], [false, false], [true, true]]) :=
+  C12_strict_cxt (by decide) (by decide) (by decide) (by decide)
+
+/-- the strict reader is strict: a missing final line break, a row of the wrong length, a trailing
+blank line, a sign in front of a number are refused -/
+example : strictCxt "B\n\n1\n1\n\na\np\nX\n".toList = some ([['a']], [['p']], [[true]]) := by decide
+example : strictCxt "B\n\n1\n1\n\na\np\nX".toList = none := by decide
+example : strictCxt "B\n\n1\n1\n\na\np\nXX\n".toList = none := by decide
+example : strictCxt "B\n\n1\n1\n\na\np\nX\n\n".toList = none := by decide
+example : strictCxt "B\n\n+1\n1\n\na\np\nX\n".toList = none := by decide
+/-- reversed columns are not accepted as the same triple -/
+example : strictCxt "B\n\n1\n2\n\na\np\nq\nX.\n".toList ≠
+    strictCxt "B\n\n1\n2\n\na\np\nq\n.X\n".toList := by decide
+
 /-! ## 3. table -/
 
 /-- `Table.loads(Table.dumps(objects, properties, bools, indent=indent))` returns the same triple,
@@ -158,6 +206,109 @@ example : loadTable (dumpTable 0 [[' ', 'a']] [['p']] [[true]]) = .ok ([['a']], 
 example : loadTable (dumpTable 0 [['a']] [[], ['p']] [[false, true]]) ≠
     .ok ([['a']], [[], ['p']], [[false, true]]) := by decide
 
+/-- the emitted text follows the ASCII-art layout: the strict reader `strictTable` (every line is
+`indent` blanks, then cells each closed by `|`, with the `|` of all lines in the same columns; cells
+are padded with blanks on the right only; the header's first cell is blank; a data cell is exactly
+`X` or blank; no final line break) recovers the triple -/
+theorem C12_strict_table {objects properties : List Str} {bools : List (List Bool)}
+    (hr : Rect objects properties bools) (ho : ∀ o ∈ objects, TableLabel o)
+    (hp : ∀ p ∈ properties, TableLabel p) (indent : Nat) :
+    strictTable indent (dumpTable indent objects properties bools) =
+      some (objects, properties, bools) :=
+  strictTable_dumpTable hr ho hp indent
+
+example : strictTable 4 (dumpTable 4 [['X'], ['a', ' ', 'b'], ['1', ',', '"']] [['p'], ['X', '.']]
+      [[true, false], [false, false], [true, false]]) =
+    some ([['X'], ['a', ' ', 'b'], ['1', ',', '"']], [['p'], ['X', '.']],
+      [[true, false], [false, false], [true, false]]) :=
+  C12_strict_table (by decide) (by decide) (by decide) 4
+
+/-- the strict reader is strict: wrong indent, a missing closing `|`, misaligned columns, another
+mark, a final line break are refused -/
+example : strictTable 0 " |p|\na|X|".toList = some ([['a']], [['p']], [[true]]) := by decide
+example : strictTable 1 " |p|\na|X|".toList = none := by decide
+example : strictTable 0 " |p\na|X".toList = none := by decide
+example : strictTable 0 " |p|\na |X|".toList = none := by decide
+example : strictTable 0 " |p|\na|x|".toList = none := by decide
+example : strictTable 0 " |p|\na|X|\n".toList = none := by decide
+
+/-! ### text of an independent writer
+
+`dumpTableWith S` (`FCA/Proofs/FormatsTableAny.lean`) writes the table with the layout choices `S`:
+any number of blanks in front of every line and on both sides of every cell text (a blank cell
+has at least one blank), any mark for each true cell, whitespace and a `#` comment after any line,
+blank lines and comment lines between the lines, in front of the header and at the end (so the text
+may end with line breaks). -/
+
+example (S : TableStyle) (o p : List Str) (b : List (List Bool)) :
+    dumpTableWith S o p b = joinWith ['\n']
+      ((S.noise 0).map noiseLine ++ [headerLineW S p] ++
+        ((o.zip b).zipIdx.flatMap fun x =>
+          (S.noise (x.2 + 1)).map noiseLine ++ [rowLineW S x.2 x.1.1 x.1.2]) ++
+        (S.noise (o.length + 1)).map noiseLine) := rfl
+example (S : TableStyle) (p : List Str) : headerLineW S p =
+    contentLine (S.indent 0) (blanks ((S.pads 0 0).1 + (S.pads 0 0).2) ::
+      p.zipIdx.map fun x => padCell (S.pads 0 (x.2 + 1)) x.1) (S.trailer 0) := rfl
+example (S : TableStyle) (i : Nat) (o : Str) (row : List Bool) : rowLineW S i o row =
+    contentLine (S.indent (i + 1)) (padCell (S.pads (i + 1) 0) o ::
+      row.zipIdx.map fun x => flagCellW (S.pads (i + 1) (x.2 + 1)) (S.mark i x.2) x.1)
+      (S.trailer (i + 1)) := rfl
+example (indent : Nat) (cells : List Str) (tr : Str × Option Str) : contentLine indent cells tr =
+    blanks indent ++ (joinWith ['|'] cells ++ ['|']) ++ noiseLine tr := rfl
+example (lr : Nat × Nat) (t : Str) : padCell lr t = blanks lr.1 ++ t ++ blanks lr.2 := rfl
+example (lr : Nat × Nat) (m : Str) (b : Bool) :
+    flagCellW lr m b = if b then padCell lr m else blanks (lr.1 + lr.2 + 1) := rfl
+example (n : Nat) : blanks n = List.replicate n ' ' := rfl
+example (ws t : Str) : noiseLine (ws, none) = ws ∧ noiseLine (ws, some t) = ws ++ '#' :: t := ⟨rfl, rfl⟩
+example (x : Str × Option Str) : NoiseOk x ↔
+    ((∀ c ∈ x.1, isSpace c = true ∧ c ≠ '\n') ∧ ∀ t ∈ x.2, '\n' ∉ t) := Iff.rfl
+example (S : TableStyle) : S.Ok ↔ ((∀ i j, TableLabel (S.mark i j)) ∧ (∀ k, NoiseOk (S.trailer k)) ∧
+    ∀ k, ∀ x ∈ S.noise k, NoiseOk x) := Iff.rfl
+
+/-- `Table.loads` returns the context from the text of any such writer -/
+theorem C12_table_any_writer (S : TableStyle) (hS : S.Ok) {objects properties : List Str}
+    {bools : List (List Bool)} (hr : Rect objects properties bools)
+    (ho : ∀ o ∈ objects, TableLabel o) (hp : ∀ p ∈ properties, TableLabel p) :
+    loadTable (dumpTableWith S objects properties bools) = .ok (objects, properties, bools) :=
+  loadTable_dumpTableWith S hS hr ho hp
+
+/-- non-vacuity: growing indentation and paddings, two different marks, a trailing comment, a comment
+line and a blank line in front, a tab line in between, a final line break -/
+def C12_exStyle : TableStyle where
+  indent := fun k => k
+  pads := fun k j => (j, k + 1 - j)
+  mark := fun i j => if (i + j) % 2 = 0 then ['x'] else ['y', 'e', 's']
+  trailer := fun k => if k = 1 then ([' '], some [' ', 'c']) else ([], none)
+  noise := fun k => if k = 0 then [([], some ['h']), ([], none)] else
+    if k = 2 then [(['\t'], none)] else if k = 3 then [([], none)] else []
+
+theorem C12_exStyle_ok : C12_exStyle.Ok := by
+  refine ⟨?_, ?_, ?_⟩
+  · intro i j
+    simp only [C12_exStyle]
+    split <;> decide
+  · intro k
+    simp only [C12_exStyle]
+    split <;> decide
+  · intro k x hx
+    simp only [C12_exStyle] at hx
+    split at hx
+    · revert x; decide
+    · split at hx
+      · revert x; decide
+      · split at hx
+        · revert x; decide
+        · simp at hx
+
+example : dumpTableWith C12_exStyle [['a'], ['b', ' ', 'c']] [['p'], ['q'], ['r']]
+      [[true, false, true], [false, false, true]] =
+    "#h\n\n | p|  q|   r|\n a  | x |   |   x| # c\n\t\n  b c   |    |    |   yes|\n".toList := by
+  decide
+
+example : loadTable "#h\n\n | p|  q|   r|\n a  | x |   |   x| # c\n\t\n  b c   |    |    |   yes|\n".toList =
+    .ok ([['a'], ['b', ' ', 'c']], [['p'], ['q'], ['r']], [[true, false, true], [false, false, true]]) := by
+  decide
+
 /-! ## 4. FIMI -/
 
 /-- `iter_fimi_rows`: row `i` lists exactly the positions of the true cells of row `i`, ascending -/
@@ -180,49 +331,266 @@ theorem C12_fimi_text (bools : List (List Bool)) :
       (fimiRows bools).map (·.map some) :=
   read_dumpFimi bools
 
-/-! ## 5. csv -/
+/-! ## 5. csv
 
-/-- a single written field of any content (commas, quotes, CR, LF, empty) is read back -/
-theorem C12_csv_field_roundtrip (s : Str) : csvParse (csvRow [s]) = some [[s]] := by
-  have := csvParse_rows [[s]] (by simp)
-  simpa using this
+The reader is a transcription of CPython's `_csv.c` (`parse_process_char`, `Reader_iternext`) for the
+excel dialect, fed with the lines of `io.StringIO(source)`: -/
 
-/-- `csv.reader` inverts `csv.writer` on every list of non-empty rows, any field contents -/
-theorem C12_csv_rows_roundtrip (rows : List (List Str)) (h : ∀ r ∈ rows, r ≠ []) :
+example (text : Str) : csvRead text = csvRecords .init (csvLines text) := rfl
+example (text : Str) : csvParse text =
+    match csvRead text with
+    | (rows, false) => some rows
+    | (_, true) => none := rfl
+example : csvFieldLimit = 131072 := rfl
+
+/-- hand-written text is read as CPython reads it: a blank line is the record `[]`, a bare CR ends
+a record only at the end of a line, an unterminated quote runs to the end of the input, a quote in
+the middle of an unquoted field is literal, text after a closing quote is appended -/
+example : csvRead "a\r\n\nb".toList = ([[['a']], [], [['b']]], false) := by decide
+example : csvRead "a\rb".toList = ([], true) := by decide
+example : csvRead "x\na\rb".toList = ([[['x']]], true) := by decide
+example : csvRead "a\r".toList = ([[['a']]], false) := by decide
+example : csvRead "\"a\nb".toList = ([[['a', '\n', 'b']]], false) := by decide
+example : csvRead "a\"b,\"c\"d\n".toList = ([[['a', '"', 'b'], ['c', 'd']]], false) := by decide
+
+/-- a single written field of any content (commas, quotes, CR, LF, empty) is read back; the reader
+refuses fields longer than `csv.field_size_limit()` -/
+theorem C12_csv_field_roundtrip (s : Str) (hl : s.length ≤ csvFieldLimit) :
+    csvParse (csvRow [s]) = some [[s]] := by
+  have := csvRead_rows [[s]] (by simp) (by simpa using hl)
+  exact csvParse_of_read (by simpa using this)
+
+/-- `csv.reader` inverts `csv.writer` on every list of non-empty rows, any field contents (up to
+the reader's field size limit) -/
+theorem C12_csv_rows_roundtrip (rows : List (List Str)) (h : ∀ r ∈ rows, r ≠ [])
+    (hl : ∀ r ∈ rows, ∀ f ∈ r, f.length ≤ csvFieldLimit) :
     csvParse (rows.flatMap csvRow) = some rows :=
-  csvParse_rows rows h
+  csvParse_of_read (csvRead_rows rows h hl)
 
-example : ∀ r ∈ ([[[], [',', '"']], [['\r', '\n'], []], [[]]] : List (List Str)), r ≠ [] := by decide
+example : (∀ r ∈ ([[[], [',', '"']], [['\r', '\n'], []], [[]]] : List (List Str)), r ≠ []) ∧
+    ∀ r ∈ ([[[], [',', '"']], [['\r', '\n'], []], [[]]] : List (List Str)), ∀ f ∈ r,
+      f.length ≤ csvFieldLimit := by decide
 
-/-- an empty row is not representable: it is written as an empty line, which the reader skips -/
-example : csvParse ([[]].flatMap csvRow) = some [] := by decide
+/-- an empty row is not representable: it is written as an empty line, which is read as the empty
+row again, but the loader cannot unpack it (see `C12_csv_blank_line_rejected`) -/
+example : csvParse ([[]].flatMap csvRow) = some [[]] := by decide
+
+/-! ### any RFC 4180 writer
+
+A writer may quote any field (it must quote those containing `,` `"` CR LF, and a lone empty
+field), and may end records with CR LF or with LF. The definitions are in
+`FCA/Proofs/FormatsCsv.lean`; every row is a pair (CR LF?, fields) and every field a pair
+(quoted?, content). -/
+
+example (q : Bool) (s : Str) : csvFieldQ q s =
+    if q || s.any csvSpecial then ['"'] ++ csvEsc s ++ ['"'] else s := rfl
+example (c : Char) : csvSpecial c = (c == ',' || c == '"' || c == '\r' || c == '\n') := rfl
+example (s : Str) : csvEsc s = s.flatMap fun c => if c == '"' then ['"', '"'] else [c] := rfl
+example (crlf : Bool) (fields : List (Bool × Str)) : csvRowQ crlf fields =
+    joinWith [','] (fields.map fun f => csvFieldQ f.1 f.2) ++
+      (if crlf then ['\r', '\n'] else ['\n']) := rfl
+example (rows : List (Bool × List (Bool × Str))) :
+    csvTextQ rows = rows.flatMap fun r => csvRowQ r.1 r.2 := rfl
+example (fields : List (Bool × Str)) :
+    CsvRowOk fields ↔ (fields ≠ [] ∧ fields ≠ [(false, [])]) := Iff.rfl
+/-- the library's writer is the member of the family that quotes only a lone empty field -/
+example (fields : List Str) : csvRow fields = csvRowQ true (csvMarks fields) := csvRow_eq fields
+
+/-- the reader returns the rows of every text of the family: arbitrary field contents, any subset
+of the fields quoted, CR LF or LF after each record (chosen per record) -/
+theorem C12_csv_writer_family (rows : List (Bool × List (Bool × Str)))
+    (hok : ∀ r ∈ rows, CsvRowOk r.2) (hl : ∀ r ∈ rows, ∀ f ∈ r.2, f.2.length ≤ csvFieldLimit) :
+    csvParse (csvTextQ rows) = some (rows.map fun r => r.2.map (·.2)) :=
+  csvParse_of_read (csvRead_textQ rows fun r hr => ⟨hok r hr, hl r hr⟩)
+
+/-- … and the last record may lack its terminator (RFC 4180, rule 2) -/
+theorem C12_csv_writer_family_open (rows : List (Bool × List (Bool × Str))) (last : List (Bool × Str))
+    (hok : ∀ r ∈ rows, CsvRowOk r.2) (hl : ∀ r ∈ rows, ∀ f ∈ r.2, f.2.length ≤ csvFieldLimit)
+    (hokl : CsvRowOk last) (hll : ∀ f ∈ last, f.2.length ≤ csvFieldLimit) :
+    csvParse (csvTextQ rows ++ joinWith [','] (last.map fun f => csvFieldQ f.1 f.2)) =
+      some ((rows.map fun r => r.2.map (·.2)) ++ [last.map (·.2)]) :=
+  csvParse_of_read (csvRead_textQ_open rows last (fun r hr => ⟨hok r hr, hl r hr⟩) hokl hll)
+
+example : csvParse "a,b\r\nc,".toList = some [[['a'], ['b']], [['c'], []]] := by decide
+
+/-- non-vacuity: needlessly quoted fields, mixed terminators, line breaks inside a field -/
+example : csvTextQ [(false, [(true, ['a']), (false, [])]), (true, [(true, [])]),
+      (false, [(false, ['\n', '"']), (true, ['b', ','])])] =
+    "\"a\",\n\"\"\r\n\"\n\"\"\",\"b,\"\n".toList := by decide
+example : csvParse "\"a\",\n\"\"\r\n\"\n\"\"\",\"b,\"\n".toList =
+    some [[['a'], []], [[]], [['\n', '"'], ['b', ',']]] := by decide
+
+/-! ### the loader -/
+
+example (asInt : Bool) (o p : List Str) (b : List (List Bool)) : csvTable asInt o p b =
+    ([] :: p) :: (o.zip b).map fun x => x.1 :: x.2.map (csym asInt) := rfl
+example (asInt b : Bool) : csym asInt b =
+    if asInt then (if b then ['1'] else ['0']) else (if b then ['X'] else []) := rfl
+example (asInt : Bool) (o p : List Str) (b : List (List Bool))
+    (marked : List (Bool × List (Bool × Str))) : CsvRendering asInt o p b marked ↔
+    ((marked.map fun r => r.2.map (·.2)) = csvTable asInt o p b ∧ ∀ r ∈ marked, CsvRowOk r.2) :=
+  Iff.rfl
 
 /-- `Csv.loads(Csv.dumps(objects, properties, bools, bools_as_int=asInt))` returns the same
-triple for both symbol sets (sniffed by the loader) and arbitrary labels. Only the shape is
-restricted (at least one object; zero properties are fine). -/
+triple for both symbol sets (sniffed by the loader) and arbitrary labels up to the reader's field
+size limit. Only the shape is restricted (at least one object; zero properties are fine). -/
 theorem C12_csv_roundtrip (asInt : Bool) {objects properties : List Str} {bools : List (List Bool)}
     (hone : objects ≠ []) (hlen : bools.length = objects.length)
-    (hrow : ∀ r ∈ bools, r.length = properties.length) :
-    loadCsv (dumpCsv asInt objects properties bools) = .ok (objects, properties, bools) :=
-  loadCsv_dumpCsv asInt hone hlen hrow
+    (hrow : ∀ r ∈ bools, r.length = properties.length)
+    (hol : ∀ o ∈ objects, o.length ≤ csvFieldLimit)
+    (hpl : ∀ p ∈ properties, p.length ≤ csvFieldLimit) :
+    loadCsvE (dumpCsv asInt objects properties bools) = .ok (objects, properties, bools) :=
+  loadCsvE_dumpCsv asInt hone hlen hrow hol hpl
 
 /-- the `Rect` form -/
 theorem C12_csv_roundtrip_rect (asInt : Bool) {objects properties : List Str}
-    {bools : List (List Bool)} (hr : Rect objects properties bools) :
-    loadCsv (dumpCsv asInt objects properties bools) = .ok (objects, properties, bools) :=
-  loadCsv_dumpCsv asInt hr.1 hr.2.2.1 hr.2.2.2
+    {bools : List (List Bool)} (hr : Rect objects properties bools)
+    (hol : ∀ o ∈ objects, o.length ≤ csvFieldLimit)
+    (hpl : ∀ p ∈ properties, p.length ≤ csvFieldLimit) :
+    loadCsvE (dumpCsv asInt objects properties bools) = .ok (objects, properties, bools) :=
+  loadCsvE_dumpCsv asInt hr.1 hr.2.2.1 hr.2.2.2 hol hpl
 
 /-- non-vacuity: all-blank first row with the X/blank symbols; empty label, comma, quote, CR LF -/
-example : loadCsv (dumpCsv false [[], ['a', ',', '"'], ['\r', '\n']] [['X'], []]
+example : loadCsvE (dumpCsv false [[], ['a', ',', '"'], ['\r', '\n']] [['X'], []]
       [[false, false], [true, false], [false, true]]) =
     .ok ([[], ['a', ',', '"'], ['\r', '\n']], [['X'], []],
       [[false, false], [true, false], [false, true]]) :=
-  C12_csv_roundtrip false (by decide) (by decide) (by decide)
+  C12_csv_roundtrip false (by decide) (by decide) (by decide) (by decide) (by decide)
 
 example : Rect [[], ['1']] [['0'], ['X']] [[false, false], [true, false]] := by decide
 
-/-- without objects there is no data row to sniff from: the loader refuses the text -/
-example : loadCsv (dumpCsv true [] [['p']] []) = .error .valueError := by decide
+/-- the loader returns the context from the text of any writer of the family: every rendering of
+the table of the context (header with empty corner field, one record per object, cells `X`/blank
+or `1`/`0`) with any subset of fields quoted and CR LF or LF after each record -/
+theorem C12_csv_writer_family_load (asInt : Bool) {objects properties : List Str}
+    {bools : List (List Bool)} (hone : objects ≠ []) (hlen : bools.length = objects.length)
+    (hrow : ∀ r ∈ bools, r.length = properties.length)
+    (hol : ∀ o ∈ objects, o.length ≤ csvFieldLimit)
+    (hpl : ∀ p ∈ properties, p.length ≤ csvFieldLimit)
+    {marked : List (Bool × List (Bool × Str))}
+    (hm : CsvRendering asInt objects properties bools marked) :
+    loadCsvE (csvTextQ marked) = .ok (objects, properties, bools) :=
+  loadCsvE_rendering asInt hone hlen hrow hol hpl hm
+
+/-- … also when the last record has no terminator -/
+theorem C12_csv_writer_family_load_open (asInt : Bool) {objects properties : List Str}
+    {bools : List (List Bool)} (hone : objects ≠ []) (hlen : bools.length = objects.length)
+    (hrow : ∀ r ∈ bools, r.length = properties.length)
+    (hol : ∀ o ∈ objects, o.length ≤ csvFieldLimit)
+    (hpl : ∀ p ∈ properties, p.length ≤ csvFieldLimit)
+    {init : List (Bool × List (Bool × Str))} {t : Bool} {last : List (Bool × Str)}
+    (hm : CsvRendering asInt objects properties bools (init ++ [(t, last)])) :
+    loadCsvE (csvTextQ init ++ joinWith [','] (last.map fun f => csvFieldQ f.1 f.2)) =
+      .ok (objects, properties, bools) :=
+  loadCsvE_rendering_open asInt hone hlen hrow hol hpl hm
+
+/-- the field size limit is needed: with an object label longer than `csv.field_size_limit()`
+`Csv.loads(Csv.dumps(…))` raises `_csv.Error` (field larger than field limit) -/
+theorem C12_csv_field_limit_needed (asInt : Bool) {o1 : Str} {os properties : List Str}
+    {r1 : List Bool} {rs : List (List Bool)} (hpl : ∀ p ∈ properties, p.length ≤ csvFieldLimit)
+    (ho : csvFieldLimit < o1.length) :
+    loadCsvE (dumpCsv asInt (o1 :: os) properties (r1 :: rs)) = .error "Error" :=
+  loadCsvE_object_too_long asInt hpl ho
+
+example : csvFieldLimit < (List.replicate 131073 'a').length := by
+  rw [List.length_replicate]; decide
+
+/-- non-vacuity: every field quoted, LF only -/
+example : CsvRendering true [['a'], []] [['p']] [[true], [false]]
+    [(false, [(true, []), (true, ['p'])]), (false, [(true, ['a']), (true, ['1'])]),
+     (true, [(false, []), (false, ['0'])])] := by decide
+example : csvTextQ [(false, [(true, []), (true, ['p'])]), (false, [(true, ['a']), (true, ['1'])]),
+     (true, [(false, []), (false, ['0'])])] = "\"\",\"p\"\n\"a\",\"1\"\n,0\r\n".toList := by decide
+example : loadCsvE "\"\",\"p\"\n\"a\",\"1\"\n,0\r\n".toList =
+    .ok ([['a'], []], [['p']], [[true], [false]]) := by decide
+
+/-- a blank line (`"\r\n"` or `"\n"`) is an empty row, which `for obj, *symbols in rows` (and the
+unpacking of the header / the first row) cannot unpack: `ValueError`, wherever the line is —
+in front of the header, or after the header and any number of data rows of any rendering —
+and whatever follows it. Empty text: `next(reader)` leaks `StopIteration`; so does a header
+without a data row. -/
+theorem C12_csv_blank_line_rejected :
+    loadCsvE [] = .error "StopIteration" ∧
+    (∀ (crlf : Bool) (rest : Str), loadCsvE (csvTerm crlf ++ rest) = .error "ValueError") ∧
+    (∀ (asInt : Bool) (objects properties : List Str) (bools : List (List Bool))
+        (marked : List (Bool × List (Bool × Str))) (crlf : Bool) (rest : Str),
+      bools.length = objects.length → (∀ r ∈ bools, r.length = properties.length) →
+      (∀ o ∈ objects, o.length ≤ csvFieldLimit) → (∀ p ∈ properties, p.length ≤ csvFieldLimit) →
+      CsvRendering asInt objects properties bools marked →
+      loadCsvE (csvTextQ marked ++ (csvTerm crlf ++ rest)) = .error "ValueError") ∧
+    (∀ (asInt : Bool) (properties : List Str) (marked : List (Bool × List (Bool × Str))),
+      (∀ p ∈ properties, p.length ≤ csvFieldLimit) → CsvRendering asInt [] properties [] marked →
+      loadCsvE (csvTextQ marked) = .error "StopIteration") := by
+  refine ⟨rfl, ?_, ?_, ?_⟩
+  · intro crlf rest
+    unfold loadCsvE
+    rw [csvRead_blank]
+  · intro asInt objects properties bools marked crlf rest hlen hrow hol hpl hm
+    exact loadCsvE_rendering_blank asInt hlen hrow hol hpl hm crlf rest
+  · intro asInt properties marked hpl hm
+    unfold loadCsvE
+    rw [csvRead_textQ marked (hm.limit (by simp) hpl), hm.1]
+    rfl
+
+/-- the same for the library's own text: `dumps` output with a blank line appended (or inserted
+after the first `k` objects: take the context of these objects) is refused -/
+theorem C12_csv_blank_line_after_dump (asInt : Bool) {objects properties : List Str}
+    {bools : List (List Bool)} (hlen : bools.length = objects.length)
+    (hrow : ∀ r ∈ bools, r.length = properties.length)
+    (hol : ∀ o ∈ objects, o.length ≤ csvFieldLimit)
+    (hpl : ∀ p ∈ properties, p.length ≤ csvFieldLimit) (crlf : Bool) (rest : Str) :
+    loadCsvE (dumpCsv asInt objects properties bools ++ (csvTerm crlf ++ rest)) =
+      .error "ValueError" := by
+  obtain ⟨hm, he⟩ := csvRendering_dump asInt objects properties bools
+  rw [he]
+  exact loadCsvE_rendering_blank asInt hlen hrow hol hpl hm crlf rest
+
+/-- the two texts of the review -/
+example : loadCsvE "h,p\r\n\r\na,X\r\n".toList = .error "ValueError" := by decide
+example : loadCsvE ",p\na,X\n\n".toList = .error "ValueError" := by decide
+/-- `_csv.Error` (new-line character seen in unquoted field) is reported as such -/
+example : loadCsvE "a\rb,X\nc,X\n".toList = .error "Error" := by decide
+/-- … lazily: an earlier row that cannot be decoded wins -/
+example : loadCsvE ",p\na,?\nb\rc\n".toList = .error "ValueError" := by decide
+example : loadCsvE ",p\na,X\nb,?\nb\rc\n".toList = .error "KeyError" := by decide
+example : loadCsvE ",p\na,X\nb\rc\n".toList = .error "Error" := by decide
+
+/-- without objects there is no data row to sniff from: `next(reader)` leaks `StopIteration` -/
+example : loadCsvE (dumpCsv true [] [['p']] []) = .error "StopIteration" := by decide
+
+/-! ### strict RFC 4180 reader -/
+
+/-- the emitted text is RFC 4180: the strict automaton `rfcRecords` (every record ends in CR LF; a
+field is either enclosed in quotes with inner quotes doubled, or free of `,` `"` CR LF; no empty
+line) reads the rows `csv.writer` wrote -/
+theorem C12_strict_csv_rows (rows : List (List Str)) (h : ∀ r ∈ rows, r ≠ []) :
+    rfcRecords (rows.flatMap csvRow) = some rows :=
+  rfcRecords_rows rows h
+
+/-- … and the strict reader `strictCsv` (header with empty first field, then the properties; per
+object a record with the object and exactly one cell `X`/empty resp. `1`/`0` per property)
+recovers the triple, for both symbol sets, arbitrary labels and any shape (no object, no property) -/
+theorem C12_strict_csv (asInt : Bool) {objects properties : List Str} {bools : List (List Bool)}
+    (hlen : bools.length = objects.length) (hrow : ∀ r ∈ bools, r.length = properties.length) :
+    strictCsv asInt (dumpCsv asInt objects properties bools) = some (objects, properties, bools) :=
+  strictCsv_dumpCsv asInt hlen hrow
+
+example : strictCsv false (dumpCsv false [[], ['a', ',', '"'], ['\r', '\n']] [['X'], []]
+      [[false, false], [true, false], [false, true]]) =
+    some ([[], ['a', ',', '"'], ['\r', '\n']], [['X'], []],
+      [[false, false], [true, false], [false, true]]) :=
+  C12_strict_csv false (by decide) (by decide)
+
+/-- the strict reader is strict: bare LF, a missing final CR LF, a blank line, the other symbol
+set, text after a closing quote, a non-empty corner field, a surplus cell are refused -/
+example : strictCsv false ",p\r\na,X\r\n".toList = some ([['a']], [['p']], [[true]]) := by decide
+example : strictCsv false ",p\na,X\n".toList = none := by decide
+example : strictCsv false ",p\r\na,X".toList = none := by decide
+example : strictCsv false ",p\r\n\r\na,X\r\n".toList = none := by decide
+example : strictCsv true ",p\r\na,X\r\n".toList = none := by decide
+example : strictCsv false ",p\r\na,\"X\"b\r\n".toList = none := by decide
+example : strictCsv false "h,p\r\na,X\r\n".toList = none := by decide
+example : strictCsv false ",p\r\na,X,\r\n".toList = none := by decide
 
 /-! ## 6. wiki table (export only)
 
@@ -271,12 +639,26 @@ example : readWiki (dumpWiki [['a']] [['p', '!'], ['q']] [[true, false]]) =
 #print axioms C12_cxt_roundtrip
 #print axioms C12_cxt_roundtrip_general
 #print axioms C12_table_roundtrip
+#print axioms C12_table_any_writer
+#print axioms C12_exStyle_ok
+#print axioms C12_strict_table
+#print axioms C12_strict_cxt
+#print axioms C12_strict_cxt_rect
+#print axioms C12_strict_csv_rows
+#print axioms C12_strict_csv
 #print axioms C12_fimi_rows
 #print axioms C12_fimi_text
 #print axioms C12_csv_field_roundtrip
 #print axioms C12_csv_rows_roundtrip
 #print axioms C12_csv_roundtrip
 #print axioms C12_csv_roundtrip_rect
+#print axioms C12_csv_writer_family
+#print axioms C12_csv_writer_family_load
+#print axioms C12_csv_writer_family_open
+#print axioms C12_csv_writer_family_load_open
+#print axioms C12_csv_field_limit_needed
+#print axioms C12_csv_blank_line_rejected
+#print axioms C12_csv_blank_line_after_dump
 #print axioms C12_wiki_readback
 
 end FCA
